@@ -152,8 +152,12 @@ GetStep(T, k) ==
     ELSE LET l == Load(T, k) IN
          IF l[1] = "miss" THEN [T |-> T, res |-> 0, src |-> "miss"]
          ELSE IF l[1] = "keeper"
-              THEN \* the queued record itself re-enters memory, with its own advice and age
-                   [T |-> MemInsert(T, k, l[2], KeyLoc[k], "fresh"), res |-> l[2], src |-> l[1]]
+              THEN \* the queued record itself re-enters memory, with its own advice and age; a disk-only
+                   \* (phantom) record is not admitted and, when the caller drops it, goes through the
+                   \* pipe once more (KeeperHitReoffersDiskOnly: what the code does, see KNOWN_FINDINGS F09)
+                   IF KeyLoc[k] = "ondisk"
+                   THEN [T |-> IF Policy = "woe" THEN Enqueue(T, k, l[2], "fresh") ELSE T, res |-> l[2], src |-> l[1]]
+                   ELSE [T |-> MemInsert(T, k, l[2], KeyLoc[k], "fresh"), res |-> l[2], src |-> l[1]]
               ELSE [T |-> MemInsert(T, k, l[2], "default", "young"), res |-> l[2], src |-> l[1]]
 
 -------------------------------------------------------------------------------
@@ -282,7 +286,7 @@ InMemNeverOnDevice == \A e \in S.disk : \A k \in Keys : (e.k = k /\ S.truth[k] =
 OnDiskNotRetained == \A i \in DOMAIN S.mem : S.mem[i].loc # "ondisk"
 \* a lookup that hits does not offer the entry it returned to the disk tier again (evictions that
 \* the population of memory causes are capacity evictions of *other* entries)
-HitCausesNoWrite == (out.op.a = "get" /\ out.res # 0) => out.res \notin Range(S.enqv)
+HitCausesNoWrite == (out.op.a = "get" /\ out.res # 0 /\ KeyLoc[out.op.k] # "ondisk") => out.res \notin Range(S.enqv)
 
 \* C15: after close (flush on close, resident set within the buffer) + reopen every entry that was
 \* resident and not in-memory-only is retrievable with its latest value - evaluated at Reopen
